@@ -261,3 +261,55 @@ def _bounds_history(spec, model):
     same = all(abs(first[k] - again[k]) <= 1e-6 * abs(first[k]) for k in first)
     return {'confirmed': not same, 'observed': {'first fit': {k: float(v) for k, v in first.items()}, 'same fit after a user-bounded fit': {k: float(v) for k, v in again.items()},
                                                  'bounds in force': str(again_iso.model.param_bounds)}, 'expected': 'identical fits under the default bounds'}
+
+
+def verbose_cases():
+    """a fit asked to report what it does (verbose=True: log lines, a plot) returns the same model as the silent fit: parameters,
+    reported error, and the error equals the actual deviation -- through the model, the isotherm constructor, and the best-of-list"""
+    import os
+    os.environ.setdefault('MPLBACKEND', 'Agg')
+    import warnings
+    import pygaps
+    import pygaps.modelling as pgm
+    pygaps.logger.disabled = True
+    try:
+        import matplotlib
+        matplotlib.use('Agg')
+        import matplotlib.pyplot as plt
+    except Exception:
+        plt = None
+    p = numpy.linspace(0.05, 5, 25)
+    data = {'Toth': 5.0 * 0.8 * p / (1 + (0.8 * p) ** 0.7) ** (1 / 0.7), 'Freundlich': 2.0 * p ** (1 / 1.7), 'DSLangmuir': 3.0 * 2.0 * p / (1 + 2.0 * p) + 2.0 * 0.1 * p / (1 + 0.1 * p)}
+    for name, l in data.items():
+        iso = _iso(p, l, pressure_mode='absolute', pressure_unit='bar')
+        probs = []
+        with warnings.catch_warnings():
+            warnings.simplefilter('ignore')
+            try:
+                silent = pgm.model_iso(iso, model=name, verbose=False)
+                loud = pgm.model_iso(iso, model=name, verbose=True)
+                best = pgm.model_iso(iso, model=['Henry', name], verbose=True)
+                for tag, mi in (('verbose=True', loud), ('best of list, verbose=True', best)):
+                    if mi.model.name != name:
+                        continue
+                    if any(not close(float(mi.model.params[k]), float(silent.model.params[k]), rel=1e-6) for k in silent.model.params):
+                        probs.append(f"{tag}: parameters {dict(mi.model.params)} vs silent fit {dict(silent.model.params)}")
+                    pred = numpy.asarray(mi.loading_at(p), dtype=float)
+                    rng = mi.model.loading_range[1] - mi.model.loading_range[0]
+                    actual = float(numpy.sqrt(numpy.mean((pred - l) ** 2)) / rng)
+                    if not (abs(actual - float(mi.model.rmse)) <= 1e-6 * max(actual, 1e-9) + 1e-12):
+                        probs.append(f"{tag}: reported error {float(mi.model.rmse):.3e}, actual deviation {actual:.3e}")
+            except Exception as exc:
+                probs.append(f"{type(exc).__name__}: {exc}"[:160])
+            finally:
+                if plt is not None:
+                    plt.close('all')
+        yield {'name': f"verbose_fit_equals_silent_fit|{name}", 'ok': not probs, 'detail': '; '.join(probs[:2])}
+
+
+@replayer('c12.verbose')
+def _verbose(spec, model):
+    for r in verbose_cases():
+        if r['name'] == spec['name']:
+            return {'confirmed': not r['ok'], 'observed': r['detail'], 'expected': 'the verbose fit is the silent fit'}
+    return {'confirmed': False, 'error': 'case not found'}
